@@ -110,8 +110,13 @@ def check(ctx, rep):
     ok = len(stx) == 1
     if ok:
         blk = stx[0]._parent.body
-        ok = [norm(s) for s in blk[:blk.index(stx[0])]] == [CODE + '.seek(self.data_pos)'] and len(adv) == 1 and fl.knows(adv[0], 'data_error', False)
-    rep.ob('read.type-error-names-data-line', 'a bad numeric item: position moved to the DATA statement, Syntax error, pointer not advanced', ok, '', ctx.where(rd))
+        # the position the error is reported at is the one reached by reading the offending item (the local taken from tell()
+        # after the item), not the DATA pointer of before the item, which may still be on the previous DATA line
+        err_seeks = [norm(s) for s in blk[:blk.index(stx[0])] if not (isinstance(s, ast.Expr) and isinstance(s.value, ast.Constant))]
+        after_item = [norm(a.targets[0]) for a in tell] if tell else []
+        ok = len(err_seeks) == 1 and any(err_seeks[0] == '%s.seek(%s)' % (CODE, v) for v in after_item) and len(adv) == 1 and fl.knows(adv[0], 'data_error', False)
+    rep.ob('read.type-error-names-data-line', 'a bad numeric item: position moved behind that item on its DATA line, Syntax error, DATA pointer not advanced', ok,
+           'the error is reported from where the DATA pointer stood before the item: the line of the previous item, or no line at all', ctx.where(rd))
     fr = [c for c in own_nodes(rd) if isinstance(c, ast.Call) and norm(c.func) == 'self._values.from_repr']
     rep.ob('read.numeric-strict', 'numbers are parsed with allow_nonnum=False and trailing text is a data error',
            len(fr) == 1 and [(k.arg, norm(k.value)) for k in fr[0].keywords] == [('allow_nonnum', 'False')] and fl.knows(fr[0], 'name[-1:] == values.STR', False)
@@ -211,6 +216,8 @@ def variants(ctx):
            lambda tree: _data_verbatim(mu.find_def(tree, 'Tokeniser._tokenise_data')), expect='data.tokeniser-keeps-literals-whole'),
         Va('read-looks-at-uncompleted-name', 'break', INTERP,
            rd(lambda fn: mu.remove_stmt(fn, mu.text_is('name = self._memory.complete_name(name)'))), expect='names.sigil-read-from-completed-name'),
+        Va('data-error-reported-from-the-old-data-pointer', 'break', INTERP,
+           rd(lambda fn: mu.replace_expr(fn, mu.text_is('self._program_code.seek(data_pos)'), 'self._program_code.seek(self.data_pos)')), expect='read.type-error-names-data-line'),
         Va('no-search-for-next-data', 'break', INTERP, rd(lambda fn: mu.remove_stmt(fn, lambda st: isinstance(st, ast.If) and 'skip_to_token' in norm(st) and 'END_STATEMENT' in norm(st.test))), expect='read.finds-next-data'),
         Va('bad-number-advances-pointer', 'break', INTERP, rd(_advance_always), expect='read.type-error'),
         Va('bad-number-error-at-read-line', 'break', INTERP,
